@@ -137,3 +137,53 @@ pub const SMALL_SETS: &[(u64, u64, u64)] = &[
     (263, 131, 4),
 ];
 pub const SET62: (u64, u64, u64) = (2305843009213699919, 1152921504606849959, 4);
+
+/// Integers with a special machine representation (never hit by uniform sampling, never present in toy
+/// groups): zero limbs at the low / middle / high end, single bits, all-ones runs, every byte length,
+/// neighbours of limb boundaries, and the same below `p`.  All returned values are < 2p.
+pub fn structured_values(p: &BigUint, rng: &mut crate::core::SplitMix, per_len: usize, len_step: usize) -> Vec<BigUint> {
+    let one = BigUint::from(1u32);
+    let mut out: Vec<BigUint> = vec![];
+    let bits = p.bits();
+    // k * 2^(64 j): low limbs zero
+    for j in [1u64, 2, 3, 4, 15, 16, 17, 31] {
+        for k in [1u64, 2, 3, 5, 7, 18, 22, 26, 30, 1 << 31, (1 << 32) + 1, u64::MAX] {
+            out.push(BigUint::from(k) << (64 * j));
+            out.push((BigUint::from(k) << (64 * j)) - 1u32); // all-ones low limbs; +1 has zero low limbs (encode adds 1)
+            out.push((BigUint::from(k) << (64 * j)) + (BigUint::from(k) << (64 * (j + 1))));
+        }
+        out.push(rng.below(&(&one << 64u32)) << (64 * j)); // random limb, zero below
+        out.push((rng.below(&(&one << 128u32)) << (64 * (j + 1))) + rng.below(&(&one << 64u32))); // zero limb in the middle
+    }
+    // single bits, all-ones, and their neighbours
+    for e in [0u64, 1, 7, 8, 9, 15, 16, 31, 32, 33, 63, 64, 65, 127, 128, 129, 255, 256, 511, 512, 1023, 1024, 2039, 2040, 2041, 2047, 2048] {
+        if e <= bits {
+            let t = &one << e;
+            out.push(t.clone());
+            out.push(&t - 1u32);
+            out.push(&t + 1u32);
+            if &t < p {
+                out.push(p - &t);
+                out.push(p - &t - 1u32);
+            }
+        }
+    }
+    // every byte length 1..: top byte 1 / 0xff / random, random body; and with a zero tail
+    let max_len = ((bits + 7) / 8) as usize;
+    for len in (1..=max_len).filter(|l| l % len_step == 1 % len_step || *l + 2 > max_len) {
+        for k in 0..per_len {
+            let mut bs = rng.bytes(len);
+            bs[0] = match k % 3 { 0 => 1, 1 => 0xff, _ => bs[0] | 1 };
+            out.push(BigUint::from_bytes_be(&bs));
+            if len > 9 && k == 0 {
+                for b in bs.iter_mut().skip(len - 8) { *b = 0; }
+                out.push(BigUint::from_bytes_be(&bs));
+            }
+        }
+    }
+    let two_p = p * 2u32;
+    out.retain(|x| *x < two_p);
+    out.sort();
+    out.dedup();
+    out
+}
